@@ -1,6 +1,7 @@
 package main
 
 import (
+	"strings"
 	"encoding/json"
 	"fmt"
 	"io"
@@ -88,6 +89,29 @@ func genC12(g *G, n int, out io.Writer) {
 			c.Validations[k].Rule = Rule{And: []Rule{old, {Atom: ip(len(c.Atoms) - 1)}}}
 			prof.Atoms, prof.Validations = c.Atoms, c.Validations
 			prof.Prefixes = map[string]string{"sl": SchemelessNS, "sl2": SchemelessNS2}
+		}
+		if i%6 == 4 && len(c.Validations) > 0 {
+			// the level lists also name things the profile does not define: a stranger, and the name of a defined validation in
+			// another capitalisation (names are compared as written). Such entries are skipped; no result may carry their name
+			levels := map[string][]string{}
+			for _, v := range prof.Validations {
+				l := v.Level
+				if l == "" {
+					l = "violation"
+				}
+				levels[l] = append(levels[l], v.Name)
+			}
+			v0 := prof.Validations[g.n(len(prof.Validations))].Name
+			near := strings.ToUpper(v0)
+			if near == v0 {
+				near = strings.ToLower(v0)
+			}
+			l := []string{"violation", "warning", "info"}[g.n(3)]
+			levels[l] = append(levels[l], "stranger")
+			if near != v0 {
+				levels[l] = append([]string{near}, levels[l]...)
+			}
+			prof.Levels = levels
 		}
 		c.Profile = prof.Render()
 		c.Data = c.Graph.RenderFlat()
